@@ -70,6 +70,14 @@ AtomOn(a, n) ==
                            ELSE IF ~IsDigitStr(Text(n)) THEN "X" ELSE IF ToInt(Text(n)) <= a.k THEN "T" ELSE "F"
     [] a.kind = "starts" -> IF Len(Text(n)) >= Len(a.lit) /\ SubSeq(Text(n), 1, Len(a.lit)) = a.lit THEN "T" ELSE "F"
 
+IntOf(n) == IF Text(n) = <<>> THEN 0 ELSE ToInt(Text(n))
+IntOK(n) == Text(n) = <<>> \/ IsDigitStr(Text(n))
+Cmp2(kind, a, b) ==
+  CASE kind = "intle" -> IF ~IntOK(a) \/ ~IntOK(b) THEN "X" ELSE IF IntOf(a) <= IntOf(b) THEN "T" ELSE "F"
+    [] kind = "intlt" -> IF ~IntOK(a) \/ ~IntOK(b) THEN "X" ELSE IF IntOf(a) < IntOf(b) THEN "T" ELSE "F"
+    [] kind = "streq" -> IF Text(a) = Text(b) THEN "T" ELSE "F"
+    [] kind = "strne" -> IF Text(a) # Text(b) THEN "T" ELSE "F"
+
 \* expression-level group: one Python expression `a1 op a2 (op a3)`; combinations = product of the matches
 \* of every atom's selector; per combination evaluate left to right with short-circuit; a raise fails the combination
 RECURSIVE Product(_)
@@ -104,6 +112,11 @@ SatM(phi, root, scope, lazy) ==
     [] phi.f = "count" ->
          LET r == Sel(phi.sel, 1, <<>>, root, scope) IN
          IF ~r.ok THEN "SELX" ELSE IF Len(r.nodes) >= phi.k THEN "T" ELSE "F"
+    \* a comparison of two symbols, int(sel) <= int(sel2) / str(sel) == str(sel2): every PAIR of matches must satisfy it
+    [] phi.f = "cmp2" ->
+         LET r1 == Sel(phi.sel, 1, <<>>, root, scope)  r2 == Sel(phi.sel2, 1, <<>>, root, scope) IN
+         IF ~r1.ok \/ ~r2.ok THEN "SELX"
+         ELSE IF \A x \in 1..Len(r1.nodes), y \in 1..Len(r2.nodes) : Cmp2(phi.kind, r1.nodes[x], r2.nodes[y]) = "T" THEN "T" ELSE "F"
     [] phi.f \in {"and", "or"} ->
          LET vs == [x \in 1..Len(phi.xs) |-> SatM(phi.xs[x], root, scope, lazy)] IN
          IF lazy THEN FirstNot(vs, 1, IF phi.f = "and" THEN "T" ELSE "F")
